@@ -27,6 +27,8 @@ func checkC06(c *Check, a *Anchors) {
 	hashOptionsDefault(c, a)
 	c09MapRanges(c, a) // the when_changed key covers the compiled commands: an unordered loop in the compiler makes identical calls hash differently
 	compiledFromDefinition(c, a, "compiled-from-definition")
+	c06KeyFromFullCompile(c, a)
+	c06FileDefaultsNotImported(c, a, "file-defaults-not-imported")
 }
 
 func c06RunModeSwitch(c *Check, a *Anchors) {
@@ -452,4 +454,122 @@ func c06RunModeTable(c *Check, a *Anchors, fb *FuncBody) bool {
 	})
 	c.Decide(defaultErr, "run-mode-switch", "default-errors@"+name, ix.Pos(), "unknown modes return an error", "an unknown run mode no longer returns an error")
 	return true
+}
+
+// compileKind: "full" when the call compiles a task with its dynamic (sh:) variables evaluated, "fast" when they are
+// blanked: the task compiler called with the constant true / false for its bool parameter, directly or through a wrapper of
+// the package whose single statement returns such a call.
+func (a *Anchors) compileKind(p *Prog, info *types.Info, call *ast.CallExpr, depth int) string {
+	fn, _ := callee(info, call).(*types.Func)
+	if fn == nil || a.CompiledTask == nil {
+		return ""
+	}
+	if fn == a.CompiledTask.Obj {
+		for _, arg := range call.Args {
+			if tv, ok := info.Types[arg]; ok && tv.Value != nil && types.TypeString(tv.Type, nil) == "bool" || ok && tv.Value != nil && tv.Value.String() == "true" || ok && tv.Value != nil && tv.Value.String() == "false" {
+				if tv.Value.String() == "true" {
+					return "full"
+				}
+				return "fast"
+			}
+		}
+		return "unknown"
+	}
+	if depth <= 0 {
+		return ""
+	}
+	h := p.DeclOf(fn)
+	if h == nil || h.Decl == nil || h.Pkg.PkgPath != PkgTask || len(h.Body.List) != 1 {
+		return ""
+	}
+	r, ok := h.Body.List[0].(*ast.ReturnStmt)
+	if !ok || len(r.Results) != 1 {
+		return ""
+	}
+	inner, ok := ast.Unparen(r.Results[0]).(*ast.CallExpr)
+	if !ok {
+		return ""
+	}
+	return a.compileKind(p, h.Info(), inner, depth-1)
+}
+
+// c06KeyFromFullCompile: the deduplication key is computed from the task the dedup function is handed.
+func c06KeyFromFullCompile(c *Check, a *Anchors) {
+	c.Rule("key-from-full-compile", "the task RunTask hands to the dedup function — from which the run: when_changed key is hashed — is, on every path, the result of the FULL task compilation (dynamic variables evaluated); a task compiled with the dynamic variables blanked has the same commands for calls that differ only through an sh: variable, so the second call would be skipped as a duplicate")
+	rt := a.RunTask
+	if a.DedupCall == nil {
+		c.Errorf("key-from-full-compile: dedup call not found")
+		return
+	}
+	c.Fn(rt)
+	info := rt.Info()
+	f := NewFlow(c.P, rt, func(call *ast.CallExpr, obj types.Object) string {
+		switch a.compileKind(c.P, info, call, 1) {
+		case "full":
+			return "compile-full"
+		case "fast", "unknown":
+			return "compile-fast"
+		}
+		return a.labelObj(obj)
+	})
+	f.Run()
+	var tv *types.Var
+	for _, arg := range a.DedupCall.Args {
+		if v := varOf(info, arg); v != nil && isNamed(v.Type(), PkgAst, "Task") {
+			tv = v
+		}
+	}
+	if tv == nil {
+		c.Errorf("key-from-full-compile: the dedup function is not handed a task variable")
+		return
+	}
+	st := f.At[a.DedupCall]
+	c.Decide(st.Has(defPrefix(tv)+"compile-full"), "key-from-full-compile", "dedup-task@"+fnDisplay(rt), a.DedupCall.Pos(), "the task handed to the dedup function is the fully compiled one",
+		"the task handed to the dedup function is not, on every path, the result of the full compilation (dynamic variables evaluated): the when_changed key would be hashed from commands in which every sh: variable is blank; must-facts: "+st.String())
+}
+
+// c06FileDefaultsNotImported: Taskfile.Run (and the other file-wide settings) of the ROOT Taskfile are what GetHash and the
+// task compiler apply to every task without a setting of its own; merging an included Taskfile must not change them.
+var taskfileMergeWrites = map[string]string{
+	"Output":   "upstream behaviour: an included Taskfile that sets output: overrides the output style",
+	"Includes": "initialisation of a nil container",
+	"Vars":     "initialisation of a nil container",
+	"Env":      "initialisation of a nil container",
+	"Tasks":    "initialisation of a nil container",
+}
+
+func c06FileDefaultsNotImported(c *Check, a *Anchors, rule string) {
+	c.Rule(rule, "Taskfile.Merge assigns no file-wide setting of the including Taskfile (Run, Method, Silent, Set, Shopt, Interval, Version, Dotenv): they stay the root Taskfile's. They are the defaults applied to EVERY task without a setting of its own — an included file's `run: once` taken over by the root would deduplicate all the root's tasks (reviewed writes: output, and the initialisation of nil containers)")
+	tm := c.P.Func(PkgAst, "Taskfile", "Merge")
+	if tm == nil {
+		c.Errorf("%s: Taskfile.Merge not found", rule)
+		return
+	}
+	n := 0
+	for _, fb := range c.P.groupOf(tm, 1) {
+		info := fb.Info()
+		if fb.Decl == nil || fb.Decl.Recv == nil || recvOf(fb) != "Taskfile" || len(fb.Decl.Recv.List[0].Names) == 0 {
+			continue
+		}
+		recv, _ := info.Defs[fb.Decl.Recv.List[0].Names[0]].(*types.Var)
+		c.Fn(fb)
+		inspectDeep(fb.Body, func(nd ast.Node) bool {
+			as, ok := nd.(*ast.AssignStmt)
+			if !ok {
+				return true
+			}
+			for _, l := range as.Lhs {
+				sel, ok := ast.Unparen(l).(*ast.SelectorExpr)
+				if !ok || varOf(info, sel.X) != recv || !fieldSel(info, sel, PkgAst, "Taskfile", sel.Sel.Name) {
+					continue
+				}
+				n++
+				why, okW := taskfileMergeWrites[sel.Sel.Name]
+				c.Decide(okW, rule, "merge-writes Taskfile."+sel.Sel.Name, as.Pos(), "reviewed: "+why,
+					"Taskfile.Merge assigns the including Taskfile's "+sel.Sel.Name+": a file-wide default of the root Taskfile now depends on what its includes declare (for Run: every task of the root without its own run: is deduplicated like the include's tasks)")
+			}
+			return true
+		})
+	}
+	c.Floor(rule, n, 3)
 }
